@@ -8,11 +8,15 @@ import gen
 from common import Driver, f2b, coo_tokens, parse_coo, sparse_to_dict, close
 
 
+REGEN = ("constants", "registry", "umapsrc")
+
 def label_tokens(y):
     return [len(y)] + [("n" if int(v) == -1 else str(int(v))) for v in y]
 
 
 def run(ctx):
+    import srcval as _srcval
+    _srcval.validate_umap(ctx, 200 if ctx.thorough else 40, ctx.rng, only="fast_intersection")     # translated `fast_intersection` vs the Python source
     import umap
     import umap.umap_ as U
     warnings.filterwarnings("ignore")
